@@ -157,6 +157,13 @@ impl Ctx {
     /// A fresh path in this worker's private directory (on /dev/shm).
     pub fn fresh_path(&mut self, stem: &str) -> PathBuf {
         self.file_counter += 1;
+        if self.name_style == 3 {
+            // a path longer than 255 bytes whose bytes around `len - 255` belong to multi-byte
+            // characters: a long directory in front of a long name
+            let d = self.tmpdir.join("日本é".repeat(16));
+            let _ = std::fs::create_dir_all(&d);
+            return d.join(styled_name(3, stem, self.file_counter));
+        }
         self.tmpdir.join(styled_name(self.name_style, stem, self.file_counter))
     }
 }
@@ -168,7 +175,7 @@ pub fn styled_name(style: u8, stem: &str, k: u32) -> String {
         2 => format!("{stem}{k},part two.json"),
         // a name that makes the whole path longer than 255 bytes (the name itself stays below
         // the limit of a path component), two- and three-byte characters in turn
-        3 => format!("{stem}{k}-{}.json", "é名".repeat(47)),
+        3 => format!("{stem}{k}-{}.json", "é名".repeat(30)),
         _ => format!("{stem}{k}.json"),
     }
 }
@@ -383,7 +390,41 @@ pub fn sim_files_spec(case: &Case, paths: &[String], datas: &[Vec<u8>], plans: &
 }
 
 /// Remove every occurrence of "<path>:" (locations in diagnostics) and of the bare path.
+/// A diagnostic may also show a long name shortened to its tail ("...<tail>:2:3: ..."): in
+/// a line that starts with `error:` the longest tail (at least six bytes) of a known path
+/// that is followed by a colon goes as well, together with the dots in front of it. How an
+/// input is named in a diagnostic is not the subject of any property.
 pub fn strip_paths(text: &[u8], paths: &[String]) -> Vec<u8> {
+    let s = strip_paths_exact(text, paths);
+    if paths.iter().all(|p| p.len() <= 255) {
+        return s;
+    }
+    let mut out = Vec::with_capacity(s.len());
+    for line in s.split_inclusive(|b| *b == b'\n') {
+        let mut l = line.to_vec();
+        if l.starts_with(b"error:") {
+            'paths: for p in paths {
+                let pb = p.as_bytes();
+                for n in (6..pb.len()).rev() {
+                    let mut needle = pb[pb.len() - n..].to_vec();
+                    needle.push(b':');
+                    if let Some(at) = l.windows(needle.len()).position(|w| w == needle.as_slice()) {
+                        let mut from = at;
+                        while from > 6 && (l[from - 1] == b'.' || l[from - 3..from] == *"…".as_bytes()) {
+                            from -= if l[from - 1] == b'.' { 1 } else { 3 };
+                        }
+                        l.drain(from..at + needle.len());
+                        break 'paths;
+                    }
+                }
+            }
+        }
+        out.extend_from_slice(&l);
+    }
+    out
+}
+
+fn strip_paths_exact(text: &[u8], paths: &[String]) -> Vec<u8> {
     let mut s = text.to_vec();
     for p in paths {
         let needle = format!("{p}:").into_bytes();
